@@ -255,6 +255,8 @@ def gen_add(rng, cfg, w: World, opid: int, invalid: bool, steer: bool):
         op["src"] = pick_data_src(rng, cfg, w, si)
         if cfg["ids"] and rng.random() < cfg["p_explicit_id"]:
             op["data_id"] = rng.choice(cfg["ids"])
+        if rng.random() < 0.03:
+            op["node_id"] = 20_000_000 + opid
     elif src_kind == "node":
         sj = rng.choice(live_slots(w)) if rng.random() < 0.35 else si
         cand = nodes_of(w, sj)
@@ -642,6 +644,8 @@ def gen_iter(rng, cfg, w: World, opid, invalid, steer):
             if rng.random() < 0.6:
                 op["add_self"] = rng.random() < 0.6
         op["method"] = rng.choice(["pre", "post", "level", "level_rtl", "zigzag", "zigzag_rtl"])
+        if op["method"] == "pre" and "add_self" not in op and rng.random() < 0.3:
+            op["default_iter"] = True
     return op
 
 
